@@ -100,6 +100,15 @@ def run(e: Engine, rep: Report):
              'failed exchange left it (http.client keeps a half-done '
              'request: every later message on that client fails unsent)')
     l13(e, rep)
+    rep.rule('L14', 'test and growth are one step: between the bound test of '
+             '_check_idle and pool.add() nothing can switch greenlets - '
+             '_add_client and every add_client() of the package call none of '
+             'the yielding primitives of table POOL_GROWTH_YIELDERS (name '
+             'resolution, connecting, sleeping, waiting): a burst of '
+             'attempts would all pass the test before the first client is '
+             'in the pool')
+    rep.tables.add('c19.POOL_GROWTH_YIELDERS')
+    l14(e, rep)
 
 
 
@@ -1010,3 +1019,79 @@ def l13(e: Engine, rep: Report):
               loc=bad[0].loc() if bad else ctx.func.loc(),
               reason='every arm ends the loop or resets the connection',
               witness=dataflow.render_path(bad[1], 12) if bad else None)
+
+
+# --------------------------------------------------------------------- L14
+POOL_GROWTH_YIELDERS = {
+    'getaddrinfo': 'gevent.socket.getaddrinfo resolves in the hub / a thread',
+    'gethostbyname': 'name resolution',
+    'gethostbyname_ex': 'name resolution',
+    'gethostbyaddr': 'name resolution',
+    'getfqdn': 'name resolution',
+    'create_connection': 'connects',
+    'connect': 'connects',
+    'sleep': 'gevent.sleep',
+    'wait': 'Event / AsyncResult wait',
+    'wait_read': 'waits on a socket',
+    'wait_write': 'waits on a socket',
+    'join': 'waits for a greenlet',
+    'joinall': 'waits for greenlets',
+    'get': None,            # judged only on AsyncResult-like receivers
+    'query': 'DNS query',
+    'recv': 'socket read',
+    'send': 'socket write',
+    'sendall': 'socket write',
+    'acquire': 'may wait for a lock',
+    'wrap_socket': 'TLS handshake',
+}
+
+
+def l14(e: Engine, rep: Report):
+    n = 0
+    for cq in sorted(set([POOL] + list(e.concrete_classes(POOL)))):
+        c = e.p.classes.get(cq)
+        if c is None:
+            continue
+        ctx = e.method_ctx(cq, '_add_client')
+        g = e.build(ctx, raises=lambda b, nn, r: set(),
+                    inline=e.inline_same_self(), max_depth=4)
+        adds = [x for x in g.calls() if e.call_name(x) in ('add', 'update')
+                and canon(x.ast.func.value, x.frame) == 'self.pool']
+        if not adds:
+            continue
+        n += 1
+        where = '%s[%s]' % (ctx.func.qname, cq.rpartition('.')[2])
+        for fr in {x.frame for x in g.nodes}:
+            rep.functions.add(fr.ctx.func.qname)
+        # what can run before the client is in the pool
+        pre = dataflow.reachable(
+            g, g.entry, lambda p0, l, s2: not isinstance(l, tuple) and
+            p0 not in adds)
+        for x in g.calls():
+            nm = e.call_name(x)
+            if nm not in POOL_GROWTH_YIELDERS or x.id not in pre:
+                continue
+            if nm == 'get' and not any(
+                    w in ast.unparse(x.ast.func.value).lower()
+                    for w in ('result', 'event', 'async', 'greenlet')):
+                continue
+            # (calls on the client object that was just made are its own
+            # start-up: Greenlet.start() does not switch)
+            rep.evaluations += 1
+            rep.bad('L14', where, '`%s` before the client is in the pool'
+                    % x.text(40),
+                    '%s calls %s() (%s) between the size test of '
+                    '_check_idle and pool.add(): the greenlet can be '
+                    'switched out there, and every attempt that arrives '
+                    'meanwhile also finds the pool below its bound - more '
+                    'connections are opened at once than pool_size allows'
+                    % (x.frame.ctx.func.qname, nm,
+                       POOL_GROWTH_YIELDERS.get(nm) or 'blocks'),
+                    loc=x.loc())
+    rep.evaluations += 1
+    if n < 2:
+        rep.error('anchor vanished: _add_client / pool.add of the relay '
+                  'pools (%d < 2)' % n)
+    else:
+        rep.ok('L14', POOL, 'growth paths scanned', reason='%d pool classes'
+               % n, nontrivial=False)
